@@ -238,7 +238,7 @@ func (r *Runtime) builtinJSON_stringify(call FunctionCall) Value {
 			num = int64(i)
 			isNum = true
 		} else if f, ok := spaceValue.(valueFloat); ok {
-			num = int64(f)
+			num = floatToIntClip(float64(f))
 			isNum = true
 		}
 		if isNum {
